@@ -256,6 +256,10 @@ def snapshot(root):
     for path, o in reachable(root):
         attrs = _own_attrs(o)
         items = [(k, id(v)) for k, v in attrs.items()]
+        if isinstance(o, functools.partial):
+            # what a partial object binds lives in slots, not in its __dict__
+            items.append(('bound positionals of the partial object', hash(tuple(id(a) for a in o.args))))
+            items.append(('bound keywords of the partial object', hash(tuple(sorted((k, id(v)) for k, v in (o.keywords or {}).items())))))
         for k, v in attrs.items():
             if isinstance(v, inspect.Signature):
                 try:
@@ -410,6 +414,37 @@ f.implementation = cached          # (reachable through f.__dict__: part of what
 ''', 'f', 'sigtools'),
     ('lru-cached-object-itself', '''
 f = functools.lru_cache(maxsize=None)(inner2)
+''', 'f', 'sigtools'),
+    # partial objects: what they bind must stay bound
+    ('partial-keyword-names-positional-only', '''
+def f0(a, /, b=2, **kwargs): return (a, b, kwargs)
+f = functools.partial(f0, a=1)
+''', 'f', 'sigtools'),
+    ('partial-of-forwarder', '''
+def fwd(a, *args, **kwargs): return inner(*args, **kwargs)
+f = functools.partial(fwd, 0, z=1)
+''', 'f', 'sigtools'),
+    ('forwarder-to-partial-callee', '''
+def f0(a, /, b=2, **kwargs): return (a, b, kwargs)
+P = functools.partial(f0, a=1)
+def f(x, *args, **kwargs): return P(*args, **kwargs)
+f.callee = P
+''', 'f', 'sigtools'),
+    ('partial-plain-retrieval', '''
+f = functools.partial(inner2, 0, v=3, zq=4)
+''', 'f', 'noauto'),
+    # the raw function gets another __signature__ after a modifier wrapped it
+    ('modifier-then-annotate-on-raw', '''
+def raw(a, b=2, *args, **kwargs): return inner(*args, **kwargs)
+f = modifiers.kwoargs('b')(raw)
+modifiers.annotate(a=int)(raw)
+''', 'f', 'sigtools'),
+    ('modifier-over-decorator-object', '''
+@wrappers.decorator
+def d(func, *args, opt=False, **kwargs): return func(*args, **kwargs)
+@modifiers.kwoargs('y')
+@d
+def f(x, y=1): return x
 ''', 'f', 'sigtools'),
     ('kwoargs-function', '''
 @modifiers.kwoargs('b')
